@@ -24,6 +24,9 @@ var addrPool = []net.Addr{
 	&net.UDPAddr{IP: net.IPv4(10, 0, 0, 1), Port: 4000},
 	&net.UDPAddr{IP: net.IPv4(10, 0, 0, 2), Port: 4000},
 	&net.UDPAddr{IP: net.IPv4(10, 0, 0, 3), Port: 53000},
+	// the same hosts on another port: a different network address, too
+	&net.UDPAddr{IP: net.IPv4(10, 0, 0, 1), Port: 4001},
+	&net.UDPAddr{IP: net.IPv4(10, 0, 0, 3), Port: 53001},
 }
 
 type sess struct {
@@ -426,7 +429,7 @@ func TestExpiryDoesNotKillSuccessors(t *testing.T) {
 	sweeps := vlib.Pick(1, 2)
 	gen := rapid.Custom(func(rt *rapid.T) expiryPlan {
 		return expiryPlan{
-			FirstAddr: rapid.IntRange(0, 2).Draw(rt, "a1"), SecondAddr: rapid.IntRange(0, 2).Draw(rt, "a2"),
+			FirstAddr: rapid.IntRange(0, len(addrPool)-1).Draw(rt, "a1"), SecondAddr: rapid.IntRange(0, len(addrPool)-1).Draw(rt, "a2"),
 			CloseFirstBy:    []string{"client", "server", "none"}[rapid.IntRange(0, 2).Draw(rt, "close")],
 			TransfersBefore: rapid.IntRange(0, 3).Draw(rt, "xfers"), ThirdSession: rapid.Bool().Draw(rt, "third"),
 			LateClose: rapid.Bool().Draw(rt, "lateClose"),
